@@ -419,3 +419,30 @@ def c14(c):
         exhaustive=False,
         exhaustive_subspaces=["all operation sequences of length 4 (quick) / 5 (thorough) over 11 operations x 2 sandbox objects, and of length 3 / 4 over 3 objects"],
         assumptions=["an expected abort ends the history"]))
+
+
+# --------------------------------------------------------------------- C12
+@plan("C12")
+def c12(c):
+    units = guest_libs()
+    runs = []
+    variants = [("ilp32", []), ("wide", ["RLBOX_EMBEDDER_PROVIDES_TLS_STATIC_VARIABLES"])]
+    if c.thorough:
+        variants += [("ilp32", ["RLBOX_EMBEDDER_PROVIDES_TLS_STATIC_VARIABLES"]), ("wide", [])]
+    for cfg, tls in variants:
+        nm = "c12_%s_%s" % (cfg, "etls" if tls else "ltls")
+        units.append(dict(name=nm, srcs=[D + "c12_callback_calls.cpp"], build="asan", defs=EXC + ["CFG=vsbx_" + cfg] + tls, libs=["-ldl"], needs=["libguest1.so", "libguest2.so"]))
+        for b, bn in enumerate(["model", "noop", "dylib"]):
+            runs.append(dict(unit=nm, label="%s[%s]" % (nm, bn), args=[b], env=guest_env(c)))
+    return dict(units=units, runs=runs, evidence=dict(
+        level="exploration",
+        rule="(a) register/unregister histories over a pool of 79 same-signature callbacks (slots reused, table between empty and full) on one sandbox while "
+             "a second live sandbox of the same type holds its own registration; after every step PRNG-chosen live entry points are called from guest "
+             "code (once, or twice per invocation): exactly the registered function must run, the right number of times, with a reference to the "
+             "executing sandbox, the argument the guest passed and the guest must get its result back. (b) argument/result faithfulness for long+char, "
+             "unsigned long long, data pointer, double+float and void callbacks at boundary/random values (model backend: guest-typed values, abort iff "
+             "unrepresentable). (c) nesting invoke->callback->invoke->... across two live sandboxes to depth 0..6 from either side, the guest calling "
+             "the callback again after the nested chain returned: the (sandbox, argument) trace seen by the callbacks must be exact. Backends model "
+             "(ILP32, WIDE), noop, dylib (two shared objects); library-provided and embedder-provided TLS.",
+        exhaustive=False,
+        assumptions=["host-ABI guests (noop, dylib) report what they got back through their return value"]))
